@@ -3,6 +3,7 @@ import RSocketModel.Proofs.Bridge
 import RSocketModel.Props.C02
 import RSocketModel.Props.C10
 import RSocketModel.Engine.Signals
+import RSocketModel.Engine.NetProofs
 /-!
 # C01 — End-to-end payload delivery and request/response correlation  (composition; **partial**)
 
@@ -246,5 +247,48 @@ theorem c01_dispatch_by_stream_id (st : State) (hw : WF st) (f : Frame) (b : Beh
               have : st.oidOf f.sid = st'.oidOf cf.sid := by
                 simp only [State.oidOf, hheap.2, hsid cf rfl]
               rw [this]; exact hoid'
+
+/-! ### two endpoints and the link between them (`Engine/Net.lean`) -/
+
+/-- **exactly-once-at-most, in order, intact, to no other stream — for every interleaving.** Two
+engines (client and server) joined by a FIFO of whole frames per direction; any interleaving of
+local entry points on either side — requests, publisher signals, future resolutions, cancellations,
+done-callbacks, connection loss — with deliveries of the oldest frame in flight. For every stream id
+`s` and either endpoint `x`: the non-empty payloads handed to `x`'s application for `s` (stream
+elements, responses, requests given to the handler) are a subsequence of the non-empty payloads the
+peer's application handed to the library on `s`, in the order it did: nothing is delivered twice,
+altered, out of order, or on a stream it was not sent on; and an entry point that processes no
+frame delivers nothing at all. -/
+theorem c01_two_endpoints (lpA lpB : Bool) (evs : List NEv) (x : Bool) (s : Nat) :
+    (deliveredAt x s ((Net.init lpA lpB).run evs).2).Sublist (producedAt (!x) s ((Net.init lpA lpB).run evs).2) := by
+  have := deliver_gen x s evs (Net.init lpA lpB) [] [] (netGood_init lpA lpB) (List.Sublist.refl _)
+  rw [producedAt_eq]
+  simpa [Net.init] using this
+
+/-- non-vacuity: a request-response and a stream interleaved between the two endpoints; everything
+handed in on one side comes out on the other -/
+def exNet : List NEv := [.loc true (.requestResponse [1, 2]), .loc true (.requestStream [3] 5 true),
+  .dlv false .futPending, .dlv false .publisher, .loc false (.pubNext 1 [7] false), .loc false (.hfResolve 0 [9]),
+  .loc false (.cbRRResp 0), .dlv true .ok, .loc false (.pubNext 1 [8] true), .dlv true .ok, .dlv true .ok]
+
+example : deliveredAt true 3 (Net.init.run exNet).2 = [[7], [8]] ∧ producedAt false 3 (Net.init.run exNet).2 = [[7], [8]] ∧
+    deliveredAt true 1 (Net.init.run exNet).2 = [[9]] ∧ deliveredAt false 1 (Net.init.run exNet).2 = [[1, 2]] ∧
+    deliveredAt false 3 (Net.init.run exNet).2 = [[3]] := by decide +kernel
+
+/-- nothing is lost while the receiving side is listening: an element for a subscribed, registered
+stream requester is handed to its subscriber -/
+theorem c01_element_reaches_its_subscriber (st : State) (hc : st.closed = false) (sid oid : Nat) (s : Stream)
+    (h0 : sid ≠ 0) (hreg : st.oidOf sid = some oid) (ho : st.obj oid = some s) (hk : s.kind = .stReq) (hs : s.subscribed = true)
+    (hcache : st.cache.find? (·.1 == sid) = none) (data : List Nat) (c : Bool) (b : Behaviour) :
+    (step st (.recv { ty := .payload, sid := sid, data := data, next := true, complete := c } b)).2 = [.onNext oid data c] := by
+  simp [step, recvStep, hc, isFragmentable, cacheAppend, hcache, h0, isInitiate, hreg, ho, frameReceived, hk, hs, State.emit]
+
+/-- … and a request on a fresh stream id reaches the handler with its payload -/
+theorem c01_request_reaches_handler (st : State) (hc : st.closed = false) (sid : Nat) (ty : FType) (hty : isInitiate ty = true)
+    (hfree : st.isActive sid = false) (hcache : st.cache.find? (·.1 == sid) = none) (data : List Nat) (n : Nat) (b : Behaviour) :
+    Out.handlerCall ty data ∈ (step st (.recv { ty := ty, sid := sid, data := data, n := n } b)).2 := by
+  cases ty <;> simp [isInitiate] at hty <;>
+    simp [step, recvStep, hc, isFragmentable, cacheAppend, hcache, isInitiate, handleByType, hfree, State.emit] <;>
+    (cases b <;> simp <;> (repeat' split) <;> simp)
 
 end RSocketModel.Engine
